@@ -105,10 +105,10 @@ def eq_int(a: int, b: int) -> bool:
 
 
 def eq_grid(i0: bool, i1: bool, i2: bool, x0: bool, x1: bool, x2: bool, x3: bool, y0: bool, y1: bool, y2: bool,
-            y3: bool, left_int: bool, nest: bool) -> bool:
+            y3: bool, left_int: bool, nest: bool, exact: bool) -> bool:
     """
     Tolerance on IEEE doubles: operands from the grid (floats next to the default delta at small and LARGE magnitude)
-    or a small int, both orders, optionally nested in a list: |a-b| < delta => equal, |a-b| > delta => not equal,
+    or a small int, both orders, optionally nested in a list, exact_strings on or off: |a-b| < delta => equal, |a-b| > delta => not equal,
     symmetric, assert_equal / assert_not_equal / assert_almost_equal agree.
 
     pre: True
@@ -132,10 +132,11 @@ def eq_grid(i0: bool, i1: bool, i2: bool, x0: bool, x1: bool, x2: bool, x3: bool
         return True
     want = d < DELTA
     xa, xb = ([a], [b]) if nest else (a, b)
-    e1, e2 = equality_test(xa, xb, False, DELTA), equality_test(xb, xa, False, DELTA)
-    pos = _passes(R.assert_equal, xa, xb, exact_strings=False, delta=DELTA)
-    pos2 = _passes(R.assert_equal, xb, xa, exact_strings=False, delta=DELTA)
-    neg = _passes(R.assert_not_equal, xa, xb, exact_strings=False, delta=DELTA)
+    # exact_strings only concerns strings: the float tolerance applies either way
+    e1, e2 = equality_test(xa, xb, exact, DELTA), equality_test(xb, xa, exact, DELTA)
+    pos = _passes(R.assert_equal, xa, xb, exact_strings=exact, delta=DELTA)
+    pos2 = _passes(R.assert_equal, xb, xa, exact_strings=exact, delta=DELTA)
+    neg = _passes(R.assert_not_equal, xa, xb, exact_strings=exact, delta=DELTA)
     return e1 == want and e2 == want and pos == want and pos2 == want and neg == (not want)
 
 
